@@ -739,6 +739,20 @@ func Deferred(site string, f func()) {
 }
 
 // DeferClose replaces `defer close(c)`.
+// DeferredN run a deferred visible operation that takes arguments (bound at defer time) and yield after it.
+func Deferred1[A any](site string, f func(A), a A)            { f(a); Yield(site) }
+func Deferred2[A, B any](site string, f func(A, B), a A, b B) { f(a, b); Yield(site) }
+func Deferred3[A, B, C any](site string, f func(A, B, C), a A, b B, c C) {
+	f(a, b, c)
+	Yield(site)
+}
+func Deferred1R[A, R any](site string, f func(A) R, a A)            { f(a); Yield(site) }
+func Deferred2R[A, B, R any](site string, f func(A, B) R, a A, b B) { f(a, b); Yield(site) }
+func Deferred3R[A, B, C, R any](site string, f func(A, B, C) R, a A, b B, c C) {
+	f(a, b, c)
+	Yield(site)
+}
+
 func DeferClose[T any](site string, c chan<- T) {
 	close(c)
 	Yield(site)
